@@ -360,7 +360,45 @@ func c16Oracle(s *c16Src, dest *smf.SMF) (bad []string) {
 	return
 }
 
+// runC16Big: a source with very many events (more than 2^16 for one channel), judged by the oracle alone
+func runC16Big(c Case) (v Verdict) {
+	f := fields(c.Op)
+	n, _ := strconv.Atoi(f["n"])
+	busy, _ := strconv.Atoi(f["busy"])
+	var t smf.Track
+	for i := 0; i < n; i++ {
+		d := uint32(i % 3 % 2)
+		switch {
+		case i%5000 == 11:
+			t = append(t, smf.Event{Delta: d, Message: smf.Message{0x90 | byte((busy+1)%16), byte(i / 5000 % 128), 0x64}})
+		case i%7000 == 13:
+			t = append(t, smf.Event{Delta: d, Message: smf.Message{0x80 | byte((busy+2)%16), byte(i / 7000 % 128), 0x00}})
+		case i%9000 == 17:
+			t = append(t, smf.Event{Delta: d, Message: smf.Message{0xFF, 0x06, 0x01, byte('a' + i/9000%26)}})
+		default:
+			t = append(t, smf.Event{Delta: d, Message: smf.Message{0xB0 | byte(busy), byte(i % 120), byte(i / 120 % 128)}})
+		}
+	}
+	t = append(t, smf.Event{Delta: 5, Message: smf.Message(append([]byte(nil), c16EOT...))})
+	src := c16Src{format: 0, tf: smf.MetricTicks(96), tracks: []smf.Track{t}}
+	var dest smf.SMF
+	if p := try(func() { dest = src.build("raw").ConvertToSMF1() }); p != "" {
+		v.Oracle = append(v.Oracle, fmt.Sprintf("panic while converting a source of %d events: %s", n, short(p)))
+		return
+	}
+	for _, b := range c16Oracle(&src, &dest) {
+		v.Oracle = append(v.Oracle, fmt.Sprintf("source of %d events (channel %d busy): %s", n, busy, short(b)))
+		if len(v.Oracle) > 2 {
+			break
+		}
+	}
+	return
+}
+
 func runC16(c Case, m *Model) (v Verdict) {
+	if strings.HasPrefix(c.Op, "convert.big ") {
+		return runC16Big(c)
+	}
 	src, how := parseC16(c.Op)
 	mr := fields(m.Ask(c.Op))["r"]
 	var dest smf.SMF
@@ -615,6 +653,13 @@ func genC16(r *Rng, tier string, emit func(Case)) {
 	n := 2000
 	if tier == "thorough" {
 		n = 200000
+	}
+	// very many events, more than 2^16 of them for one target track
+	for i, big := range []int{20000, 65535, 65536, 65544, 70000, 140000} {
+		if tier != "thorough" && i%2 == 0 {
+			continue
+		}
+		emit(Case{Op: fmt.Sprintf("convert.big n=%d busy=%d", big, []int{0, 7, 15}[i%3]), Tags: []string{"very-long-source"}, NonTrivial: true})
 	}
 	for i := 0; i < n; i++ {
 		tags := map[string]bool{}
